@@ -20,9 +20,11 @@ VARIABLES
     so,         \* sorter slot -> [adds (sequence of entries), merge, failtok, iterating, maxmem, bytes, pool, chunks, failed]
     fs,         \* fileset: see the Fileset section
     it,         \* iterator slot -> [null |-> BOOLEAN, c |-> cursor, own |-> owner source, broken]
-    pl          \* pool slot -> [n |-> max threads]
+    pl,         \* pool slot -> [n |-> max threads]
+    judge       \* which properties this log is judged for (set by the harness at the start of a log): a call whose
+                \* result belongs to a property outside this set is taken as observed, not judged
 
-vars == <<disk, wr, rd, us, mg, so, fs, it, pl>>
+vars == <<disk, wr, rd, us, mg, so, fs, it, pl, judge>>
 
 Upd(f, x, v) == [y \in DOMAIN f \cup {x} |-> IF y = x THEN v ELSE f[y]]
 Del(f, x)    == [y \in DOMAIN f \ {x} |-> f[y]]
@@ -33,67 +35,106 @@ SumSeq(s) == FoldLeft(LAMBDA a, b : a + b, 0, s)
 EmptyFs == [shared |-> <<>>, h |-> <<>>]
 
 Init == /\ disk = <<>> /\ wr = <<>> /\ rd = <<>> /\ us = <<>> /\ mg = <<>> /\ so = <<>>
-        /\ fs = EmptyFs /\ it = <<>> /\ pl = <<>>
+        /\ fs = EmptyFs /\ it = <<>> /\ pl = <<>> /\ judge = {}
 
 \* ------------------------------------------------------------------ files made by the harness
-MkOther(path) == disk' = Upd(disk, path, [kind |-> "other"]) /\ UNCHANGED <<wr, rd, us, mg, so, fs, it, pl>>
+MkOther(path, h) == disk' = Upd(disk, path, IF h = "" THEN [kind |-> "other"] ELSE [kind |-> "other", h |-> h]) /\ UNCHANGED <<wr, rd, us, mg, so, fs, it, pl, judge>>
 MkTable(path, t) == /\ Strict(t)
                     /\ disk' = Upd(disk, path, [kind |-> "table", t |-> t])
-                    /\ UNCHANGED <<wr, rd, us, mg, so, fs, it, pl>>
-RmFile(path) == disk' = Del(disk, path) /\ UNCHANGED <<wr, rd, us, mg, so, fs, it, pl>>
+                    /\ UNCHANGED <<wr, rd, us, mg, so, fs, it, pl, judge>>
+RmFile(path) == disk' = Del(disk, path) /\ UNCHANGED <<wr, rd, us, mg, so, fs, it, pl, judge>>
 
 \* ------------------------------------------------------------------ writer (C08, C01)
+\* cfg = [bs (as requested), ri, prefix, comp (numeric id), pool]
+Clamp(bs) == IF bs < 1024 THEN 1024 ELSE bs
+NewWr(path, cfg) == [path |-> path, t |-> <<>>, cfg |-> [cfg EXCEPT !.bs = Clamp(cfg.bs)], sorted |-> TRUE]
 \* mtbl_writer_init never opens an existing path
-WInit(w, path, pool, ok) ==
-    /\ ok <=> path \notin DOMAIN disk
-    /\ IF ok THEN /\ wr' = Upd(wr, w, [path |-> path, t |-> <<>>, pool |-> pool])
+WInit(w, path, cfg, ok) ==
+    /\ "C08" \in judge => (ok <=> path \notin DOMAIN disk)
+    /\ IF ok THEN /\ wr' = Upd(wr, w, NewWr(path, cfg))
                   /\ disk' = Upd(disk, path, [kind |-> "writing"])
              ELSE UNCHANGED <<wr, disk>>
-    /\ UNCHANGED <<rd, us, mg, so, fs, it, pl>>
+    /\ UNCHANGED <<rd, us, mg, so, fs, it, pl, judge>>
 \* the harness created the file itself (foreign prefix) and handed the descriptor over
-WInitFd(w, path, pool) ==
-    /\ wr' = Upd(wr, w, [path |-> path, t |-> <<>>, pool |-> pool])
+WInitFd(w, path, cfg) ==
+    /\ wr' = Upd(wr, w, NewWr(path, cfg))
     /\ disk' = Upd(disk, path, [kind |-> "writing"])
-    /\ UNCHANGED <<rd, us, mg, so, fs, it, pl>>
+    /\ UNCHANGED <<rd, us, mg, so, fs, it, pl, judge>>
 
 AddOk(t, k) == Len(t) = 0 \/ Lt(t[Len(t)].k, k)
 WAdd(w, k, v, ok) ==
     /\ w \in DOMAIN wr
-    /\ ok <=> AddOk(wr[w].t, k)
-    /\ wr' = IF ok THEN [wr EXCEPT ![w].t = Append(@, [k |-> k, v |-> v])] ELSE wr      \* a refused add changes nothing
-    /\ UNCHANGED <<disk, rd, us, mg, so, fs, it, pl>>
+    /\ "C08" \in judge => (ok <=> AddOk(wr[w].t, k))
+    /\ wr' = IF ok THEN [wr EXCEPT ![w].t = Append(@, [k |-> k, v |-> v]),
+                                   ![w].sorted = @ /\ AddOk(wr[w].t, k)]
+                   ELSE wr                                                  \* a refused add changes nothing
+    /\ UNCHANGED <<disk, rd, us, mg, so, fs, it, pl, judge>>
+\* a finished file; if the gate let an unordered key through (C08's business) the other properties say nothing about it
 WClose(w) ==
     /\ w \in DOMAIN wr
-    /\ disk' = Upd(disk, wr[w].path, [kind |-> "table", t |-> wr[w].t])
+    /\ disk' = Upd(disk, wr[w].path, IF wr[w].sorted THEN [kind |-> "table", t |-> wr[w].t, cfg |-> wr[w].cfg]
+                                                       ELSE [kind |-> "unjudged"])
     /\ wr' = Del(wr, w)
-    /\ UNCHANGED <<rd, us, mg, so, fs, it, pl>>
+    /\ UNCHANGED <<rd, us, mg, so, fs, it, pl, judge>>
+\* bytes of a pre-existing file are untouched by a refused mtbl_writer_init (C08); h is a hash logged by the harness
+FileHash(path, h) ==
+    /\ (path \in DOMAIN disk /\ disk[path].kind = "other" /\ "h" \in DOMAIN disk[path]) => disk[path].h = h
+    /\ UNCHANGED vars
+
+\* ------------------------------------------------------------------ the file as bytes (C09) and its trailer (C10)
+FF == INSTANCE FileFormat
+FileStruct(path, S) ==
+    /\ path \in DOMAIN disk
+    /\ IF disk[path].kind = "table" /\ "cfg" \in DOMAIN disk[path]
+       THEN /\ "C09" \in judge => FF!WellFormed(S, disk[path].t, disk[path].cfg)
+            /\ disk' = [disk EXCEPT ![path] = [kind |-> "table", t |-> disk[path].t, cfg |-> disk[path].cfg, S |-> S]]
+       ELSE UNCHANGED disk
+    /\ UNCHANGED <<wr, rd, us, mg, so, fs, it, pl, judge>>
+\* the truth about a file, from its decoded structure and the writer's configuration
+Truth(S, cfg) ==
+    [version |-> S.version - 1, index_block_offset |-> S.index.off, data_block_size |-> cfg.bs, compression |-> cfg.comp,
+     count_entries |-> SumSeq([i \in 1..Len(S.blocks) |-> Len(S.blocks[i].entries)]),
+     count_data_blocks |-> Len(S.blocks),
+     bytes_data_blocks |-> SumSeq([i \in 1..Len(S.blocks) |-> FF!OnDisk(S.blocks[i])]),
+     bytes_index_block |-> FF!OnDisk(S.index),
+     bytes_keys |-> SumSeq([i \in 1..Len(S.blocks) |-> SumSeq([j \in 1..Len(S.blocks[i].entries) |-> Len(S.blocks[i].entries[j].k)])]),
+     bytes_values |-> SumSeq([i \in 1..Len(S.blocks) |-> SumSeq([j \in 1..Len(S.blocks[i].entries) |-> S.blocks[i].entries[j].vlen])])]
+\* m: the ten statistics as reported by mtbl_metadata_* (RMeta) or printed by mtbl_info (Info)
+StatsOk(path, m) ==
+    /\ path \in DOMAIN disk
+    /\ ("C10" \in judge /\ disk[path].kind = "table" /\ "S" \in DOMAIN disk[path]) =>
+          LET tr == Truth(disk[path].S, disk[path].cfg) IN
+          m.complete /\ \A f \in DOMAIN tr \cap DOMAIN m : m[f] = tr[f]
+    /\ UNCHANGED vars
+\* mtbl_dump prints the entries, with -k/-v/-K/-V exactly the matching subsequence
+DumpOk(path, kp, vp, mink, minv, ents) ==
+    /\ path \in DOMAIN disk
+    /\ ("C01" \in judge /\ disk[path].kind = "table") =>
+          ents = SelectSeq(disk[path].t, LAMBDA e : HasPrefix(e.k, kp) /\ HasPrefix(e.v, vp) /\ Len(e.k) >= mink /\ VLen(e.v) >= minv)
+    /\ UNCHANGED vars
 
 \* ------------------------------------------------------------------ reader (C01, C10 counters)
 ROpen(r, path, ok) ==
     /\ IF path \in DOMAIN disk /\ disk[path].kind = "table"
-       THEN ok /\ rd' = Upd(rd, r, [t |-> disk[path].t, path |-> path])
-       ELSE ~ok /\ UNCHANGED rd                          \* missing files and files that are not tables do not open
-    /\ UNCHANGED <<disk, wr, us, mg, so, fs, it, pl>>
-RDestroy(r) == r \in DOMAIN rd /\ rd' = Del(rd, r) /\ UNCHANGED <<disk, wr, us, mg, so, fs, it, pl>>
-\* the counters that are functions of the logical content (the block-level ones are C09/C10's Writer layer)
-RMetaOk(r, entries, bkeys, bvals) ==
-    LET t == rd[r].t IN
-    /\ entries = Len(t)
-    /\ bkeys = SumSeq([i \in 1..Len(t) |-> Len(t[i].k)])
-    /\ bvals = SumSeq([i \in 1..Len(t) |-> VLen(t[i].v)])
+       THEN ok /\ rd' = Upd(rd, r, [t |-> disk[path].t, path |-> path, judged |-> TRUE])
+       ELSE IF path \in DOMAIN disk /\ disk[path].kind = "unjudged"
+            THEN IF ok THEN rd' = Upd(rd, r, [t |-> <<>>, path |-> path, judged |-> FALSE]) ELSE UNCHANGED rd
+            ELSE ~ok /\ UNCHANGED rd                     \* missing files and files that are not tables do not open
+    /\ UNCHANGED <<disk, wr, us, mg, so, fs, it, pl, judge>>
+RDestroy(r) == r \in DOMAIN rd /\ rd' = Del(rd, r) /\ UNCHANGED <<disk, wr, us, mg, so, fs, it, pl, judge>>
 
 \* ------------------------------------------------------------------ user sources, mergers
-UInit(u) == us' = Upd(us, u, [t |-> <<>>]) /\ UNCHANGED <<disk, wr, rd, mg, so, fs, it, pl>>
-UAdd(u, k, v) == us' = [us EXCEPT ![u].t = SortSeq(Append(@, [k |-> k, v |-> v]), EntLt)] /\ UNCHANGED <<disk, wr, rd, mg, so, fs, it, pl>>
-UDestroy(u) == us' = Del(us, u) /\ UNCHANGED <<disk, wr, rd, mg, so, fs, it, pl>>
+UInit(u) == us' = Upd(us, u, [t |-> <<>>]) /\ UNCHANGED <<disk, wr, rd, mg, so, fs, it, pl, judge>>
+UAdd(u, k, v) == us' = [us EXCEPT ![u].t = SortSeq(Append(@, [k |-> k, v |-> v]), EntLt)] /\ UNCHANGED <<disk, wr, rd, mg, so, fs, it, pl, judge>>
+UDestroy(u) == us' = Del(us, u) /\ UNCHANGED <<disk, wr, rd, mg, so, fs, it, pl, judge>>
 
 MInit(m, merge, failtok, dupsort) ==
     /\ mg' = Upd(mg, m, [srcs |-> <<>>, merge |-> merge, failtok |-> failtok, dupsort |-> dupsort])
-    /\ UNCHANGED <<disk, wr, rd, us, so, fs, it, pl>>
+    /\ UNCHANGED <<disk, wr, rd, us, so, fs, it, pl, judge>>
 MAdd(m, src) == /\ m \in DOMAIN mg
                 /\ mg' = [mg EXCEPT ![m].srcs = Append(@, src)]
-                /\ UNCHANGED <<disk, wr, rd, us, so, fs, it, pl>>
-MDestroy(m) == m \in DOMAIN mg /\ mg' = Del(mg, m) /\ UNCHANGED <<disk, wr, rd, us, so, fs, it, pl>>
+                /\ UNCHANGED <<disk, wr, rd, us, so, fs, it, pl, judge>>
+MDestroy(m) == m \in DOMAIN mg /\ mg' = Del(mg, m) /\ UNCHANGED <<disk, wr, rd, us, so, fs, it, pl, judge>>
 
 (* What a source presents: [t |-> table, ord |-> order inside equal keys promised, ft |-> failing token or -1].
    Mergers may be nested (a merger's source is any source); depth is bounded by the scripts (<= 3). *)
@@ -124,35 +165,40 @@ Bound(kind, k0, k1) == [kind |-> kind, k0 |-> k0, k1 |-> k1]
 
 \* Opening any kind of iterator on a source. A NULL iterator is an iterator that yields nothing: allowed exactly
 \* when the lookup is empty.
+Free(src) == src.t = "r" /\ ~rd[src.n].judged          \* nothing is promised about a file whose adds were not ordered
 OpenOn(i, src, b, null, content) ==
     /\ null => Lookup(content.t, b) = <<>>
-    /\ it' = Upd(it, i, [null |-> null, src |-> src, ft |-> FailTokOf(src), broken |-> FALSE,
+    /\ it' = Upd(it, i, [null |-> null, src |-> src, ft |-> FailTokOf(src), broken |-> FALSE, free |-> FALSE,
                          c |-> OpenCursor(content.t, content.ord, b)])
 Open(i, src, b, null) ==
     /\ src.t # "f"
-    /\ OpenOn(i, src, b, null, Content(src))
-    /\ UNCHANGED <<disk, wr, rd, us, mg, so, fs, pl>>
+    /\ IF Free(src) THEN it' = Upd(it, i, [null |-> null, src |-> src, ft |-> -1, broken |-> FALSE, free |-> TRUE,
+                                            c |-> OpenCursor(<<>>, TRUE, b)])
+                    ELSE OpenOn(i, src, b, null, Content(src))
+    /\ UNCHANGED <<disk, wr, rd, us, mg, so, fs, pl, judge>>
 
 Seek(i, k) ==
     /\ i \in DOMAIN it
-    /\ Le(Start(it[i].c.b), k)                    \* the harness never seeks below the start of the range
-    /\ ~it[i].broken
-    /\ it' = [it EXCEPT ![i].c = SeekCursor(@, k)]
-    /\ UNCHANGED <<disk, wr, rd, us, mg, so, fs, pl>>
+    /\ IF it[i].free \/ it[i].broken THEN UNCHANGED it
+       ELSE /\ Le(Start(it[i].c.b), k)                    \* the harness never seeks below the start of the range
+            /\ it' = [it EXCEPT ![i].c = SeekCursor(@, k)]
+    /\ UNCHANGED <<disk, wr, rd, us, mg, so, fs, pl, judge>>
 
 NextHit(i, k, v) ==
-    /\ i \in DOMAIN it /\ ~it[i].null /\ ~it[i].broken
-    /\ NextOk(it[i].c) /\ ~EntryFails(it[i].c.t[it[i].c.pos], it[i].ft)
-    /\ \E c2 \in NextTo(it[i].c, k, v) : it' = [it EXCEPT ![i].c = c2]
-    /\ UNCHANGED <<disk, wr, rd, us, mg, so, fs, pl>>
+    /\ i \in DOMAIN it /\ ~it[i].null
+    /\ IF it[i].free \/ it[i].broken THEN UNCHANGED it
+       ELSE /\ NextOk(it[i].c) /\ ~EntryFails(it[i].c.t[it[i].c.pos], it[i].ft)
+            /\ \E c2 \in NextTo(it[i].c, k, v) : it' = [it EXCEPT ![i].c = c2]
+    /\ UNCHANGED <<disk, wr, rd, us, mg, so, fs, pl, judge>>
 NextMiss(i) ==
-    /\ i \in DOMAIN it /\ ~it[i].broken
-    /\ \/ /\ ~NextOk(it[i].c)
-          /\ it' = [it EXCEPT ![i].c = FailNext(@)]
-       \/ /\ NextOk(it[i].c) /\ EntryFails(it[i].c.t[it[i].c.pos], it[i].ft)      \* the merge function reported failure
-          /\ it' = [it EXCEPT ![i].broken = TRUE]
-    /\ UNCHANGED <<disk, wr, rd, us, mg, so, fs, pl>>
-Close(i) == i \in DOMAIN it /\ it' = Del(it, i) /\ UNCHANGED <<disk, wr, rd, us, mg, so, fs, pl>>
+    /\ i \in DOMAIN it
+    /\ IF it[i].free \/ it[i].broken THEN UNCHANGED it
+       ELSE \/ /\ ~NextOk(it[i].c)
+               /\ it' = [it EXCEPT ![i].c = FailNext(@)]
+            \/ /\ NextOk(it[i].c) /\ EntryFails(it[i].c.t[it[i].c.pos], it[i].ft)      \* the merge function reported failure
+               /\ it' = [it EXCEPT ![i].broken = TRUE]
+    /\ UNCHANGED <<disk, wr, rd, us, mg, so, fs, pl, judge>>
+Close(i) == i \in DOMAIN it /\ it' = Del(it, i) /\ UNCHANGED <<disk, wr, rd, us, mg, so, fs, pl, judge>>
 
 \* mtbl_source_write(src, w): every entry of the source is offered to the writer in order; stops at the first refusal
 SrcWrite(src, w, ok) ==
@@ -162,7 +208,7 @@ SrcWrite(src, w, ok) ==
         acc(n) == \A j \in 1..n : IF j = 1 THEN AddOk(old, t[1].k) ELSE Lt(t[j-1].k, t[j].k)
         n == CHOOSE q \in 0..Len(t) : acc(q) /\ (q = Len(t) \/ ~acc(q + 1))
     IN /\ w \in DOMAIN wr
-       /\ ok <=> n = Len(t)
+       /\ Len(t) > 0 => (ok <=> n = Len(t))               \* an empty source may report failure (no iterator)
        /\ wr' = [wr EXCEPT ![w].t = old \o SubSeq(t, 1, n)]
-       /\ UNCHANGED <<disk, rd, us, mg, so, fs, it, pl>>
+       /\ UNCHANGED <<disk, rd, us, mg, so, fs, it, pl, judge>>
 ====
